@@ -31,6 +31,7 @@ type c09Blk struct {
 	ts     int64
 	h      uint64
 	txs    []*c09Tx
+	slow   bool // concurrent harness: reading the block's transactions takes a moment (a scheduling point)
 }
 
 func c09BlkID(n int) ids.ID { return ids.ID{0xB0, byte(n + 1)} }
@@ -40,7 +41,12 @@ func (b *c09Blk) GetParent() ids.ID        { return b.pid }
 func (b *c09Blk) GetTimestamp() int64      { return b.ts }
 func (b *c09Blk) GetHeight() uint64        { return b.h }
 func (b *c09Blk) GetBytes() []byte         { return nil }
-func (b *c09Blk) GetContainers() []*c09Tx  { return b.txs }
+func (b *c09Blk) GetContainers() []*c09Tx {
+	if b.slow {
+		verifYield()
+	}
+	return b.txs
+}
 func (b *c09Blk) String() string           { return "c09blk" }
 func (b *c09Blk) Contains(id ids.ID) bool {
 	for _, t := range b.txs {
@@ -465,11 +471,13 @@ func VerifC09Concurrent() {
 	b2 := w.addBlock(1, []int{0})
 	w.idx.blks[2], w.idx.live[2] = b2, true
 	w.nblks = 3
+	b1.slow = true
 	done := make(chan struct{})
 	go func() {
 		w.tvw.Accept(b1)
 		close(done)
 	}()
+	verifYield()
 	if verifChoose("question", 2) == 0 {
 		if err := w.tvw.VerifyExpiryReplayProtection(ctx, b2); err == nil {
 			verifFail("repeat-verified-while-parent-is-being-accepted")
